@@ -5,7 +5,10 @@
 (* world (one state per case): totality, closure, exactness against an independently written       *)
 (* native-arithmetic table, inverse / commutation / lifting laws, the machine-range lemma, sums,   *)
 (* uniqueness of checked quotients, and the encode/decode theorems (round trip, canonicity,        *)
-(* rejection of every out-of-range pattern).                                                       *)
+(* rejection of every out-of-range pattern).  Long sums (0..30 equal summands, so that the exact    *)
+(* total passes i64 at 7, u64 at 13 and 2 * 2^64 at 26 copies of MAX_MONEY): the closed forms of      *)
+(* Amounts are the fold / the exact total of the sequence written out, and for equal summands the    *)
+(* two coincide.                                                                                   *)
 EXTENDS Integers, Sequences, FiniteSets, TLC, Json
 
 M   == 5
@@ -18,7 +21,7 @@ NLeq(a, b) == a <= b
 NNum(n) == n
 A == INSTANCE Amounts WITH
         Plus <- NPlus, Minus <- NMinus, Times <- NTimes, LeqN <- NLeq, Num <- NNum,
-        MAXM <- M, I64MAX <- IMX, U64MAX <- UMX, HALFM <- 2, QI <- 6, QU <- 12, P62 <- 16,
+        MAXM <- M, I64MAX <- IMX, U64MAX <- UMX, HALFM <- 2, QI <- 6, QU <- 12, P62 <- 16, REPMAX <- 30,
         BYTEBASE <- 4, NBYTES <- 3
 
 ASSUME A!ConstOK
@@ -30,13 +33,15 @@ vars == <<fam, c, done>>
 
 \* ------------------------------------------------------------------ the case space
 ScalarOps == {op \in A!OpNames : A!Ops[op].mode \in {"total", "enc", "opt", "res", "assert", "io", "lift"}}
-Families == ScalarOps \cup {"seqZ", "seqB", "div", "bytes"}
+MixOps == {op \in A!OpNames : A!Ops[op].mode = "foldrep"}
+Families == ScalarOps \cup {"seqZ", "seqB", "div", "bytes", "mixB"}
 
 Dom(t) == CASE t = "i64" -> (-32)..31
             [] t \in {"u64", "mul", "pat"} -> 0..63
             [] t = "nz64" -> 1..63
             [] t = "Z" -> 0..M
             [] t = "B" -> (-M)..M
+            [] t = "rep" -> 0..30
             [] t = "oZ" -> {A!NoneR} \cup {A!Val(v) : v \in 0..M}
             [] t = "oB" -> {A!NoneR} \cup {A!Val(v) : v \in (-M)..M}
 Tuples(sig, D(_)) == CASE Len(sig) = 0 -> {<< >>}
@@ -48,6 +53,7 @@ Cases(f) == CASE f \in ScalarOps -> Tuples(A!Ops[f].sig, Dom)
               [] f = "seqB" -> SeqsOver((-M)..M, SeqLen)
               [] f = "div" -> (0..M) \X (1..63)
               [] f = "bytes" -> SeqsOver(0..3, 4)
+              [] f = "mixB" -> ((-M)..M) \X (0..30) \X ((-M)..M)
 
 Init == fam \in Families /\ c = << >> /\ done = FALSE
 Eval == ~done /\ c' \in Cases(fam) /\ done' = TRUE /\ fam' = fam
@@ -67,6 +73,7 @@ NMath(op, x) ==
       [] op \in {"B.sub", "B.osub", "B.sub_z", "B.osub_z", "Z.sub", "Z.osub"} -> Lhs(op, x) - x[2]
       [] op \in {"B.neg", "Z.neg"} -> -x[1]
       [] op \in {"B.mul_usize", "Z.mul_u64", "Z.mul_usize"} -> x[1] * x[2]
+      [] op \in {"B.sum_rep", "B.isum_rep", "B.isum_ref_rep", "Z.isum_rep", "Z.isum_ref_rep"} -> x[1] * x[2]
       [] OTHER -> x[1]
 NLo(res) == CASE res = "Z" -> 0 [] res = "B" -> -5 [] res = "i64" -> -32 [] res = "u64" -> 0
 NHi(res) == CASE res = "Z" -> 5 [] res = "B" -> 5  [] res = "i64" -> 31  [] res = "u64" -> 63
@@ -122,6 +129,18 @@ OpTheorems(op, x) ==
         \* multiplication by a small k is k-fold checked addition
         /\ (op \in {"Z.mul_u64", "Z.mul_usize", "B.mul_usize"} /\ x[2] <= 7
                 => r = A!Fold(e.res, [i \in 1..x[2] |-> x[1]]))
+        \* long sums: the sum of n equal summands is the left fold of the checked addition over the sequence
+        \* written out, and the exact total of that sequence (the two readings of "sum" coincide); it is the
+        \* short-sum operation on that sequence; and it is the checked multiplication
+        /\ (op \in A!RepSumOps =>
+                LET s == [i \in 1..x[2] |-> x[1]]
+                IN  /\ r = A!Fold(e.res, s)
+                    /\ r = A!ExactTotal(e.res, s)
+                    /\ A!SumOutcomes(e.res, s) = {r}
+                    /\ r = A!Spec(IF e.res = "Z" THEN "Z.isum" ELSE "B.sum", <<s>>)
+                    /\ r = A!Spec(IF e.res = "Z" THEN "Z.mul_usize" ELSE "B.mul_usize", x)
+                    /\ r = A!RepFold(e.res, x[1], x[2], 0) /\ r = A!RepTotal(e.res, x[1], x[2], 0)
+                    /\ (r.t = "val") = (\A k \in 0..x[2] : lo <= k * x[1] /\ k * x[1] <= hi))
         \* encodings: every decoder inverts every encoder on the decoder's own range and rejects the rest;
         \* a decoded value re-encodes to the very same pattern (one pattern per value)
         /\ (op \in Encoders =>
@@ -156,6 +175,23 @@ SeqTheorems(kind, s) ==
         /\ (kind = "seqZ" => A!Spec("Z.isum", <<s>>) = r /\ A!Spec("Z.isum_ref", <<s>>) = r)
         /\ (kind = "seqB" => A!Spec("B.sum", <<s>>) = r /\ A!Spec("B.isum", <<s>>) = r /\ A!Spec("B.isum_ref", <<s>>) = r)
 
+\* n copies of v, then w: the closed forms are the fold / the exact total of the sequence written out
+MixTheorems(v, n, w) ==
+    LET s == [i \in 1..(n + 1) |-> IF i <= n THEN v ELSE w]
+        f == A!Fold("B", s)
+        t == A!ExactTotal("B", s)
+    IN  /\ \A op \in MixOps : A!WellTyped(op, <<v, n, w>>) /\ A!Ops[op].res = "B" /\ A!Spec(op, <<v, n, w>>) = f
+        /\ MixOps # {}
+        /\ A!RepFold("B", v, n, w) = f
+        /\ A!RepTotal("B", v, n, w) = t
+        /\ A!RepOutcomes("B", v, n, w) = A!SumOutcomes("B", s)
+        /\ t = (IF -M <= n * v + w /\ n * v + w <= M THEN A!Val(n * v + w) ELSE A!NoneR)
+        /\ (f.t = "val") = ((-M <= n * v /\ n * v <= M) /\ t.t = "val")
+        /\ (f # t => f = A!NoneR /\ t.t = "val")          \* the readings differ only by a spurious None
+        \* with non-negative amounts the two readings coincide here too
+        /\ (v >= 0 /\ w >= 0 => A!RepFold("Z", v, n, w) = A!RepTotal("Z", v, n, w)
+                                 /\ A!RepFold("Z", v, n, w) = A!Fold("Z", s))
+
 DivTheorems(v, d) ==
     /\ {q \in 0..63 : A!DivOK(v, d, q)} = {v \div d}                   \* the check pins the quotient
     /\ {qr \in (0..63) \X (0..63) : A!QuotRemOK(v, d, qr[1], qr[2])} = {<<v \div d, v % d>>}
@@ -174,6 +210,7 @@ Theorems ==
               [] fam \in {"seqZ", "seqB"} -> SeqTheorems(fam, c)
               [] fam = "div" -> DivTheorems(c[1], c[2])
               [] fam = "bytes" -> ByteTheorems(c)
+              [] fam = "mixB" -> MixTheorems(c[1], c[2], c[3])
 
 \* ------------------------------------------------------------------ global facts (evaluated once)
 ASSUME PrintT(<<"CASES", ToJson([f \in Families |-> Cardinality(Cases(f))])>>)
@@ -185,8 +222,18 @@ ASSUME \A p \in 0..63 : A!EncI64(A!DecI64(p)) = p /\ A!DecI64(p) \in (-32)..31
 \* re-validation after a machine-checked multiplication is necessary, and machine overflow is possible
 ASSUME \E a \in 0..M, k \in 0..63 : a * k <= 63 /\ a * k > M
 ASSUME \E a \in 0..M, k \in 0..63 : a * k > 63
+\* the exact total of a long sum leaves the machine words (both ways for signed amounts), and the lattice of
+\* lengths has both sides of each crossing for summands equal to MAX_MONEY
+ASSUME /\ {6, 7, 12, 13, 18, 19, 20, 26, 30} \subseteq A!LatRep
+       /\ 6 * M <= IMX /\ 7 * M > IMX /\ 12 * M <= UMX /\ 13 * M > UMX
+       /\ \E n \in A!LatRep : IMX + 64 - M < n * M /\ n * M <= IMX + 64
+       /\ \E n \in A!LatRep : IMX + 64 < n * M /\ n * M <= IMX + 64 + M
+       /\ 26 * M > 2 * 64 /\ \A n \in A!LatRep : n \in 0..30
+\* a 64-bit wrap of an out-of-range total can land inside the valid range (so a range test of the wrapped
+\* total is not enough): 13 * 5 = 65 = 1 mod 64
+ASSUME \E n \in A!LatRep, v \in A!LatZ : n * v > UMX /\ (n * v) % 64 <= M
 \* the lattice is well typed ...
-ASSUME \A t \in {"i64", "u64", "mul", "nz64", "pat", "Z", "B", "oZ", "oB", "seqZ", "seqB"} :
+ASSUME \A t \in {"i64", "u64", "mul", "nz64", "pat", "Z", "B", "oZ", "oB", "seqZ", "seqB", "rep"} :
           \A a \in A!Lat(t) : A!WellTypedArg(t, a)
 \* ... and adequate: whenever an operation can produce an exact result at or next to a bound of its
 \* range at all, some lattice tuple produces exactly that result
